@@ -1,24 +1,39 @@
 /-
-Model of the pool monitor goroutine of GCPMultiEndpoint (gcp_multiendpoint.go, `monitoredConn.monitor`):
+Model of the pool monitor goroutine of GCPMultiEndpoint (gcp_multiendpoint.go, `monitoredConn.monitor`)
+and of the other place that tells the MultiEndpoints about a pool, the status update at the end of
+UpdateMultiEndpoints:
 
-    for { s := conn.GetState(); notify(s); if !conn.WaitForStateChange(ctx, s) { break } }
+    monitor:  for ctx.Err() == nil { w, wake := WithCancel(ctx); s := notify(wake); conn.WaitForStateChange(w, s); wake() }
+    notify(wake): RLock; s := conn.GetState(); keep wake; tell every MultiEndpoint s; RUnlock; return s   (F35)
+    update:   Lock; …; for every pool: tell the MultiEndpoints conn.GetState(); then wake every monitor   (F36)
+              (its current WaitForStateChange returns and it looks again); Unlock
 
 A small-step system: the connection's state is changed by the environment at any moment; the monitor
-reads it, tells every MultiEndpoint (`notify`), and then sleeps until the state differs from *the value
-it read*.  Serves C15 ("routing follows connectivity").  Core Lean only.
+reads the state and tells every MultiEndpoint in one step (both under the read lock), then sleeps
+until the state differs from *the value it read*; `sync` is the update's status report.
+
+Two earlier shapes of the code are kept for the record, each with a kernel-checked history on which the
+MultiEndpoints end up believing a state the pool is not in:
+* `stepSplit` (before F35): the monitor read the state first and told it after waiting for the lock — a
+  `sync` in between was undone by the older sample;
+* `stepSyncReads` (before F36): the status update told the pool's state without waking the monitor — a
+  state that came and went while the monitor was between `notify` and `WaitForStateChange` stayed with
+  the MultiEndpoints.
+Serves C15 ("routing follows connectivity").  Core Lean only.
 -/
 namespace GcpVerif.Monitor
 
 inductive Pc where
   | read
-  | notify (s : Nat)        -- has read `s`, about to tell the MultiEndpoints
-  | wait (s : Nat)          -- told them `s`, inside WaitForStateChange(ctx, s)
+  | notify (s : Nat)        -- (only in `stepSplit`) has read `s`, about to tell the MultiEndpoints
+  | wait (s : Nat)          -- told them `s`, before or inside WaitForStateChange(ctx, s)
   deriving DecidableEq, Repr
 
 structure St where
   conn : Nat                -- the connection's real connectivity state
   pc : Pc
   told : Option Nat         -- what the MultiEndpoints were last told
+  seen : Option Nat := none -- what the monitor last told them
   deriving DecidableEq, Repr
 
 def init (c : Nat) : St := { conn := c, pc := .read, told := none }
@@ -26,14 +41,17 @@ def init (c : Nat) : St := { conn := c, pc := .read, told := none }
 inductive Step where
   | env (c : Nat)           -- the connection changes state
   | mon                     -- the monitor goroutine makes its next move (if it can)
+  | sync                    -- UpdateMultiEndpoints' status update
   deriving Repr
 
 def step (s : St) : Step → St
   | .env c => { s with conn := c }
+  | .sync => { s with told := some s.conn,                                 -- tells the state as it is now …
+                      pc := match s.pc with | .wait _ => .read | p => p }  -- … and ends the monitor's wait
   | .mon =>
     match s.pc with
-    | .read => { s with pc := .notify s.conn }
-    | .notify v => { s with told := some v, pc := .wait v }
+    | .read => { s with told := some s.conn, seen := some s.conn, pc := .wait s.conn }   -- notify()
+    | .notify v => { s with told := some v, seen := some v, pc := .wait v }              -- (not reached from `init`)
     | .wait v => if s.conn != v then { s with pc := .read } else s     -- blocked while nothing changed
 
 def run (s : St) (l : List Step) : St := l.foldl step s
@@ -44,13 +62,35 @@ def blocked (s : St) : Bool :=
   | .wait v => s.conn == v
   | _ => false
 
-/-- the variant that re-reads the state for the wait (`WaitForStateChange(ctx, conn.GetState())`) -/
-def stepReread (s : St) : Step → St
+/-- before F35: `s := conn.GetState(); notify(s)` — read, then (after waiting for the lock) tell;
+    the status update reads the state itself -/
+def stepSplit (s : St) : Step → St
   | .env c => { s with conn := c }
+  | .sync => { s with told := some s.conn }
   | .mon =>
     match s.pc with
     | .read => { s with pc := .notify s.conn }
-    | .notify v => { s with told := some v, pc := .wait s.conn }
+    | .notify v => { s with told := some v, seen := some v, pc := .wait v }
+    | .wait v => if s.conn != v then { s with pc := .read } else s
+
+/-- after F35, before F36: the monitor reads and tells in one step, the status update does not wake it -/
+def stepSyncReads (s : St) : Step → St
+  | .env c => { s with conn := c }
+  | .sync => { s with told := some s.conn }
+  | .mon =>
+    match s.pc with
+    | .read => { s with told := some s.conn, seen := some s.conn, pc := .wait s.conn }
+    | .notify v => { s with told := some v, seen := some v, pc := .wait v }
+    | .wait v => if s.conn != v then { s with pc := .read } else s
+
+/-- the variant that re-reads the state for the wait (`WaitForStateChange(ctx, conn.GetState())`) -/
+def stepReread (s : St) : Step → St
+  | .env c => { s with conn := c }
+  | .sync => { s with told := some s.conn, pc := match s.pc with | .wait _ => .read | p => p }
+  | .mon =>
+    match s.pc with
+    | .read => { s with pc := .notify s.conn }
+    | .notify v => { s with told := some v, seen := some v, pc := .wait s.conn }
     | .wait v => if s.conn != v then { s with pc := .read } else s
 
 end GcpVerif.Monitor
